@@ -144,13 +144,14 @@ static Boolean CheckCore(unsigned CoreMask) {
  * \brief  check whether supervisor mode requirement is violated
  * \param  Required is supervisor mode required?
  * \param  pArg source argument
- * \return False if violated
+ * \return always True: a violation is only warned about
  * ------------------------------------------------------------------------ */
 
 static Boolean CheckSup(Boolean Required, tStrComp const* pArg) {
+    /* only a warning: the instruction is assembled nevertheless */
+
     if (!SupAllowed && Required) {
         WrStrErrorPos(ErrNum_PrivOrder, pArg);
-        return False;
     }
     return True;
 }
